@@ -72,6 +72,9 @@ def guard_table(ctx, rule, sfx, which, run, r, mask_txts, idx_resolver):
         x = dtab.is_some_leaf(leaf)
         if x is not None and repr(x) == 'mask':
             return ('MS', True)
+        dm = dtab.is_discr_eq(leaf)
+        if dm is not None and repr(dm[0]) == 'mask':
+            return ('MS', (dm[1] == 1) == dm[2])
         if leaf.op == 'atom':
             at = leaf.args[0]
             if at.kind == 'app' and at.name == 'elem':
@@ -141,7 +144,20 @@ def r2(ctx, F, rule, sfx):
         return rr is not None and rr[0][0] == 'pos' and not rr[1]
     act = I.get_field(r.ret, 'cell_is_active')
     act_txt = repr(I.frozen(act))
-    ok_vec = ('is_some(mask)' in act_txt and 'to_vec(mask.Some.0)' in act_txt and 'from_elem(true, len(generators))' in act_txt)
+
+    def ms_val(b_):
+        def val(leaf):
+            x = dtab.is_some_leaf(leaf)
+            dm = dtab.is_discr_eq(leaf)
+            if x is not None and repr(x) == 'mask':
+                return b_
+            if dm is not None and repr(dm[0]) == 'mask':
+                return ((dm[1] == 1) == dm[2]) == b_
+            raise AnalysisIncomplete('activity vector depends on %r' % (leaf,))
+        return val
+    a_some = repr(I.frozen(dtab.evaluate(act, ms_val(True))))
+    a_none = repr(I.frozen(dtab.evaluate(act, ms_val(False))))
+    ok_vec = a_some == 'call:std::slice::<impl [T]>::to_vec(mask.Some.0)' and a_none == 'from_elem(true, len(generators))'
     ctx.check(rule, 'integrator:activity-vector%s' % sfx, ok_vec, act_txt[:200], 'mask present: a copy of the mask; absent: all-true of generators.len()', where(r.body), key_extra='activity')
     e, T, tab = guard_table(ctx, rule, sfx, 'integrator', run, r, ('call:std::slice::<impl [T]>::to_vec(mask.Some.0)',), is_slot2)
     for env in T.rows():
@@ -195,6 +211,9 @@ def r4(ctx, F, rule, sfx):
         x = dtab.is_some_leaf(leaf)
         if x is not None and repr(x) == 'mask':
             return ('MS', True)
+        dm = dtab.is_discr_eq(leaf)
+        if dm is not None and repr(dm[0]) == 'mask':
+            return ('MS', (dm[1] == 1) == dm[2])
         if leaf.op == 'atom' and leaf.args[0].kind == 'app' and leaf.args[0].name == 'elem' and repr(leaf.args[0].args[0]) == 'mask.Some.0':
             return ('MI', True)
         return None
